@@ -1,7 +1,8 @@
 (** C14 - every style the builder accepts can be rendered without panicking.
 
-    Transcribes, from /repo/src/style.rs (commit 6ff82af, i.e. after the fix: commits b968e56,
-    16b074b, 8070567, 1ac360f, 6ff82af; all line numbers below are those of that commit):
+    Transcribes, from /repo/src/style.rs (commit 7d42cff, i.e. after the fix: commits b968e56,
+    16b074b, 8070567, 1ac360f, 6ff82af, dadbe71, 7d42cff; all line numbers below are those of
+    that commit):
       - width()                                   (style.rs:58-69)   [width_of]
       - ProgressStyle::new / default_bar / default_spinner / with_template (73-108)
       - tick_chars / tick_strings / progress_chars / with_key / template   (114-174)
@@ -14,8 +15,11 @@
         TabRewriter::write_str (434-439)                                   [render_outcome]
       - TabExpandedString::{new, expanded} (state.rs:371-395)             [expanded_site]
     and from /repo/src/draw_target.rs the partial operations of one frame:
-      - LineType::wrapped_height (709-719), visual_line_count (695-699),
-        DrawState::draw_to_term (514-633)                                  [frame_outcome]
+      - LineType::wrapped_height (721-731), visual_line_count (707-711),
+        DrawState::draw_to_term (514-645)                                  [frame_outcome]
+        (the same function has a value model in Draw.v, used by C01/C19; [frame_outcome] adds the
+        panic sites, the saturating usize operations and width 0, and is proved to return the
+        count Draw.draw_to_term returns: BuilderProofs.frame_agrees_with_draw_model)
     The template parser is C10's three-outcome [parse_full] (Template.v).
 
     A "site" is a program point that can panic: an assertion, an `unwrap`, an index, a
@@ -35,6 +39,7 @@
 From IndModel Require Export Base Template.
 From IndGen Require Import Constants.
 From Coq Require String.
+Require IndModel.Padded.       (* only for [conv_align], the cross-check with C12's model *)
 Open Scope N_scope.
 
 (** ** sites *)
@@ -60,10 +65,10 @@ Definition SITE_TAB_REPEAT : N := 437.     (* " ".repeat(tab_width): capacity ov
                                               (style.rs:437) and TabExpandedString::expanded (state.rs:393) *)
 Definition SITE_PAD_LEFT : N := 746.       (* self.str.len() - excess *)
 Definition SITE_PAD_CENTER : N := 750.     (* self.str.len() - excess.saturating_sub(excess / 2) *)
-Definition SITE_PAD_ROWS_SUB : N := 10567. (* draw_target.rs:567 shift - usize::from(full_screen_padding) *)
-Definition SITE_REAL_ADD : N := 10594.     (* draw_target.rs:594 real_height += line_height *)
-Definition SITE_REPEAT : N := 10614.       (* draw_target.rs:614 " ".repeat(n): capacity overflow above isize::MAX *)
-Definition SITE_COUNT_ADD : N := 10630.    (* draw_target.rs:630 real_height + shift *)
+Definition SITE_PAD_ROWS_SUB : N := 10575. (* draw_target.rs:575 shift - usize::from(full_screen_padding) *)
+Definition SITE_REAL_ADD : N := 10605.     (* draw_target.rs:605 real_height += line_height *)
+Definition SITE_REPEAT : N := 10626.       (* draw_target.rs:626 " ".repeat(n): capacity overflow above isize::MAX *)
+Definition SITE_COUNT_ADD : N := 10642.    (* draw_target.rs:642 real_height + shift *)
 Definition SITE_NOTABS_ASSERT : N := 20386. (* state.rs:386 debug_assert!(!s.contains('\t')) in expanded(), NoTabs arm *)
 (* sites of the template parser (Template.psite): none is reachable (C10_no_panic) *)
 Definition psite_code (p : psite) : N :=
@@ -319,6 +324,19 @@ Definition expanded_site (st : style) (v : tes_variant) (text_has_tab : bool) : 
   | VNoTabs => if text_has_tab then Panic SITE_NOTABS_ASSERT else Ok tt (* state.rs:386 *)
   | VWithTabs => tab_site st true                                       (* state.rs:393 *)
   end.
+(** Every place where the crate (outside #[cfg(test)]) makes or changes a TabExpandedString,
+    as (variant, "the text holds a tab"):
+      - TabExpandedString::new: progress_bar.rs:106,117,329,339 (prefix / message setters),
+        state.rs:55,65 (finish / abandon with message), style.rs:503,531,589,632 (template literals);
+      - the literal NoTabs("") of ProgressState::new, state.rs:271-272;
+      - set_tab_width, state.rs:397-409: neither the variant nor the text changes.
+    This list is a reading of the source; the statement over all histories of bar operations is
+    C16's invariant (props/C16.v, C16_inv: `tes_ok (NoTabs s) := has_tab s = false`). *)
+Inductive tes_made : tes_variant -> bool -> Prop :=
+| made_new (b : bool) : tes_made (tes_new b) b
+| made_empty : tes_made VNoTabs false
+| made_set_tab_width (v : tes_variant) (b : bool) : tes_made v b -> tes_made v b.
+
 (* `x.expanded()` of a value made by `new` from a text with / without a tab *)
 Definition expanded_new (st : style) (text_has_tab : bool) : outcome unit :=
   expanded_site st (tes_new text_has_tab) text_has_tab.
@@ -417,43 +435,52 @@ Definition render_outcome (st : style) (sn : snapshot) (tw : N) (O : oracles) : 
 Definition sat_addu (a b : N) : N := N.min USIZE_MAX (a + b).
 Definition sat_mulu (a b : N) : N := N.min USIZE_MAX (a * b).
 
-(** LineType::wrapped_height (draw_target.rs:709-719): ceil(cols as f64 / width as f64) as usize,
+(** LineType::wrapped_height (draw_target.rs:721-731): ceil(cols as f64 / width as f64) as usize,
     at least 1.  width = 0: x/0 = +inf -> usize::MAX, 0/0 = NaN -> 0 -> 1.  For width > 0 the
     f64 ceiling is taken to be the exact one (docs/C14.md, assumption A3). *)
 Definition wrapped_height (cols tw : N) : N :=
   if tw =? 0 then (if cols =? 0 then 1 else USIZE_MAX)
   else N.max 1 ((cols + tw - 1) / tw).
 
-(* visual_line_count (draw_target.rs:695-699) *)
+(* visual_line_count (draw_target.rs:707-711) *)
 Definition visual_line_count (ls : list N) (tw : N) : N :=
   fold_left (fun acc c => sat_addu acc (wrapped_height c tw)) ls 0.
 
-(* the paint loop (draw_target.rs:577-616); every line is a Bar line, so `padded` (:558) is true
-   from the start and the padding rows are written before the loop (:566-570) *)
+(* the paint loop (draw_target.rs:588-628); every line is a Bar line, so `padded` (:566) is true
+   from the start and the padding rows are written before the loop (:574-578) *)
 Fixpoint paint (ls : list N) (idx total tw th real : N) : outcome N :=
   match ls with
   | [] => Ok real
   | c :: r =>
-      let h := wrapped_height c tw in                                     (* :578 *)
-      if th <? sat_addu real h then Ok real                               (* :583 break *)
-      else if USIZE_MAX <? real + h then Panic SITE_REAL_ADD              (* :594 *)
-      else if ((idx + 1 =? total) || ((idx =? 0) && (c =? 0)))           (* :607 *)
-              && (ISIZE_MAX <? sat_mulu h tw - c)                         (* :610-614 *)
+      let h := wrapped_height c tw in                                     (* :589 *)
+      if th <? sat_addu real h then Ok real                               (* :594 break *)
+      else if USIZE_MAX <? real + h then Panic SITE_REAL_ADD              (* :605 *)
+      else if ((idx + 1 =? total) || ((idx =? 0) && (c =? 0)))           (* :619 *)
+              && (ISIZE_MAX <? sat_mulu h tw - c)                         (* :622-626 *)
            then Panic SITE_REPEAT
       else paint r (idx + 1) total tw th (real + h)
   end.
 
-(** DrawState::draw_to_term (draw_target.rs:514-633); [n] = *bar_count before the call,
-    [bottom] = the alignment is MultiProgressAlignment::Bottom.  Returns the new *bar_count. *)
+(** the rows the call erases first (draw_target.rs:526-550): since 7d42cff `*bar_count` is capped
+    at the terminal height in place before anything else; `clear_line` is called that many times
+    (non-move_cursor branch) - the observable the harness compares *)
+Definition frame_clears (th n : N) : N := N.min n th.
+
+(** DrawState::draw_to_term (draw_target.rs:514-645); [n] = *bar_count before the call,
+    [bottom] = the alignment is MultiProgressAlignment::Bottom.  Returns the new *bar_count.
+    `painted_any` / `cursor_below` (dadbe71, :584, :615, :637-641) only decide one
+    `move_cursor_up(1)` of the NEXT call: no partial operation, not part of the count, not
+    modelled here (Draw.v models it). *)
 Definition frame_outcome (ls : list N) (tw th n : N) (bottom : bool) : outcome N :=
-  let full := visual_line_count ls tw in                                  (* :547 *)
-  let shift := if bottom && (full <? n) then n - full else 0 in           (* :549-554; the subtraction is guarded by its own match arm *)
-  (* :564-565 an empty frame whose padding is as tall as the terminal *)
+  let n := frame_clears th n in                                           (* :526-529 *)
+  let full := visual_line_count ls tw in                                  (* :555 *)
+  let shift := if bottom && (full <? n) then n - full else 0 in           (* :557-562; the subtraction is guarded by its own match arm *)
+  (* :572-573 an empty frame whose padding is as tall as the terminal *)
   let full_screen := match ls with [] => (0 <? shift) && (th <=? shift) | _ => false end in
-  if full_screen && (shift =? 0) then Panic SITE_PAD_ROWS_SUB else        (* :567 shift - usize::from(..) *)
+  if full_screen && (shift =? 0) then Panic SITE_PAD_ROWS_SUB else        (* :575 shift - usize::from(..) *)
   match paint ls 0 (nlen ls) tw th 0 with
   | Panic s => Panic s
-  | Ok real => if USIZE_MAX <? real + shift then Panic SITE_COUNT_ADD     (* :630 *)
+  | Ok real => if USIZE_MAX <? real + shift then Panic SITE_COUNT_ADD     (* :642 *)
                else Ok (real + shift)
   end.
 
@@ -497,11 +524,29 @@ Definition tab_sane (st : style) : Prop := st_tab st <= ISIZE_MAX.
 (** the calls that are methods of ProgressStyle (OSetTab is made by the ProgressBar) *)
 Definition builder_op (o : bop) : Prop := match o with OSetTab _ => False | _ => True end.
 
+(** the assertions of the builder methods (what a refused argument may report) *)
+Definition builder_site (s : N) : Prop :=
+  s = SITE_WIDTH_UNEQUAL \/ s = SITE_TICK_CHARS \/ s = SITE_TICK_STRINGS
+  \/ s = SITE_PCHARS_LT2 \/ s = SITE_PCHARS_ZERO \/ s = SITE_PCHARS_TAB.
+
+(** the witness of the refuted tab-width clause (D24): with_template("{ck}").with_key("ck", _) on a
+    bar with tab width usize::MAX, drawn in a plain state *)
+Definition huge_tab_ops : list bop := [OWithKey [99; 107]; OSetTab 18446744073709551615].
+Definition huge_tab_template : list N := [123; 99; 107; 125].      (* "{ck}" *)
+
+(** C12's alignment type (Padded.v) read as this model's (Template.v) *)
+Definition conv_align (a : Padded.align) : align :=
+  match a with Padded.ALeft => ALeft | Padded.ACenter => ACenter | Padded.ARight => ARight end.
+
 (** the universal fact about console::measure_text_width this development assumes of every
     measured string: it never reports more columns than the string has bytes *)
 Definition mt_ok (t : mtext) : Prop := mt_cols t <= mt_len t.
 Definition oracles_ok (O : oracles) : Prop := forall i, mt_ok (o_meas O i).
 Definition snap_ok (sn : snapshot) : Prop := mt_ok (sn_msg sn) /\ mt_ok (sn_prefix sn).
+
+Definition plain_snap : snapshot := mksnap 0 (Some 3) 1 false (mkmt 1 1) (mkmt 0 0) false false.
+Definition plain_oracles : oracles :=
+  mkor (fun _ => mkmt 1 1) (fun _ => true) (fun c => mkfbar 0 false 0) (fun _ => 1) true [1].
 
 (** ** correspondence entry point *)
 (* what the harness saw of the chain of builder calls: [i] = index of the failing call *)
@@ -518,7 +563,12 @@ Definition probe := (N * option N * N * bool * (N * N * bool) * (N * N * bool) *
    returned, None if the call panicked *)
 Definition tprobe := (option N * option (list N))%type.
 
-Definition bcase := (ctor * list bop * bobs * list probe * list tprobe)%type.
+(* the frame counter across successive draws of one bar on a terminal of width [tw]: per draw
+   (console widths of the lines format_state produced, terminal height at that draw, number of
+   clear_line calls observed in that draw = the capped count left by the draws before) *)
+Definition fprobe := (N * list (list N * N * N))%type.
+
+Definition bcase := (ctor * list bop * bobs * list probe * list tprobe * list fprobe)%type.
 
 Definition probe_oracles (lines : list N) : oracles :=
   mkor (fun _ => mkmt 0 0) (fun _ => true) (fun c => mkfbar (c / 2) true 1) (fun _ => 0) true lines.
@@ -545,10 +595,23 @@ Definition tprobe_ok (st : style) (t : tprobe) : bool :=
   | _, _ => false
   end.
 
+Fixpoint fsteps_ok (tw n : N) (steps : list (list N * N * N)) : bool :=
+  match steps with
+  | [] => true
+  | (ls, th, clears) :: r =>
+      (frame_clears th n =? clears) &&
+      match frame_outcome ls tw th n false with
+      | Ok n' => fsteps_ok tw n' r
+      | Panic _ => false
+      end
+  end.
+Definition fprobe_ok (p : fprobe) : bool := fsteps_ok (fst p) 0 (snd p).
+
 Definition builder_check (c : bcase) : bool :=
-  let '(ct, ops, obs, probes, tprobes) := c in
+  let '(ct, ops, obs, probes, tprobes, fprobes) := c in
   match build_idx ct ops, obs with
   | (_, BOk st), ObsBuilt => forallb (probe_ok st) probes && forallb (tprobe_ok st) tprobes
+                             && forallb fprobe_ok fprobes
   | (i, BErr s ch), ObsErr j s' ch' => (i =? j) && tstate_eqb s s' && (ch =? ch')
   | (i, BPanic site), ObsPanic j site' => (i =? j) && (site =? site')
   | _, _ => false
